@@ -9,6 +9,7 @@ from vlib.runner import Eval
 
 ID = "C05"
 LEVEL = "exploration"
+CGF_RUNS = {"thorough": 6000}  # coverage-guided stage (vlib/cgf.py): libFuzzer executions per worker, 16 workers
 RULE = (
     "Spine rules (2-7 elements) with 1-4 capture names of drawn kinds (instruction &i, operand &x, register family &genreg/&indreg/&stackreg/&basereg "
     "with/without width suffix, both documented spellings .8H/.8h) whose first occurrences lie on the spine and whose later occurrences may sit under "
